@@ -37,6 +37,122 @@ def ceval(clause: str, env: dict):
     return eval(code, env)
 
 
+# ---- old(): maximal sub-expressions without bound variables are evaluated in the pre-state -------------
+
+
+def _names(node):
+    return {n.id for n in _ast.walk(node) if isinstance(n, _ast.Name)}
+
+
+class _OldHoister(_ast.NodeTransformer):
+    def __init__(self):
+        self.bound = []
+        self.pre = []  # (name, ast expr)
+
+    def _visit_comp(self, node):
+        added = []
+        for g in node.generators:
+            g.iter = self.visit(g.iter)
+            names = _names(g.target)
+            self.bound.append(names)
+            added.append(names)
+            g.ifs = [self.visit(i) for i in g.ifs]
+        if hasattr(node, "elt"):
+            node.elt = self.visit(node.elt)
+        for _ in added:
+            self.bound.pop()
+        return node
+
+    visit_GeneratorExp = _visit_comp
+    visit_ListComp = _visit_comp
+
+    def visit_Call(self, node):
+        if isinstance(node.func, _ast.Name) and node.func.id == "old" and len(node.args) == 1:
+            return self.hoist(node.args[0])
+        return self.generic_visit(node)
+
+    def is_free(self, node):
+        b = set().union(*self.bound) if self.bound else set()
+        return not (_names(node) & b)
+
+    def hoist(self, node):
+        if self.is_free(node) and not isinstance(node, _ast.Constant):
+            name = f"_old_{len(self.pre)}"
+            self.pre.append((name, node))
+            return _ast.Name(id=name, ctx=_ast.Load())
+        for field, value in _ast.iter_fields(node):
+            if isinstance(value, _ast.expr):
+                setattr(node, field, self.hoist(value))
+            elif isinstance(value, list):
+                setattr(node, field, [self.hoist(v) if isinstance(v, _ast.expr) else v for v in value])
+        return node
+
+
+_PREPARED: dict = {}
+
+
+def prepare(clause: str):
+    """-> ([(name, code)] evaluated before the call, code evaluated after it)"""
+    if clause in _PREPARED:
+        return _PREPARED[clause]
+    tree = _ast.parse(clause, mode="eval")
+    tree = _Lazy().visit(tree)
+    h = _OldHoister()
+    tree = h.visit(tree)
+    _ast.fix_missing_locations(tree)
+    pre = []
+    for name, node in h.pre:
+        e = _ast.Expression(body=_ast.Call(func=_ast.Name(id="_snap", ctx=_ast.Load()), args=[node], keywords=[]))
+        _ast.fix_missing_locations(e)
+        pre.append((name, compile(e, "<contract-old>", "eval")))
+    _PREPARED[clause] = (pre, compile(tree, "<contract>", "eval"))
+    return _PREPARED[clause]
+
+
+class _Undefined:
+    """Pre-state value that could not be evaluated (e.g. `.nested` of a binding that does not exist)."""
+
+    def __init__(self, exc):
+        object.__setattr__(self, "_exc", exc)
+
+    def _fail(self, *a, **k):
+        raise RuntimeError(f"old(...) undefined in the pre-state: {self._exc!r}")
+
+    __getattr__ = __bool__ = __eq__ = __ne__ = __lt__ = __le__ = __gt__ = __ge__ = __len__ = __getitem__ = __iter__ = __hash__ = _fail
+
+
+def _snap(v):
+    if isinstance(v, list):
+        return list(v)  # shallow: element identities are what `is` clauses talk about
+    return v
+
+
+def deep_snapshot(obj, seen=None, depth=0):
+    """Structural snapshot incl. list identities (for heap_unchanged())."""
+    import dataclasses
+
+    if seen is None:
+        seen = {}
+    if isinstance(obj, (str, int, float, bool, bytes)) or obj is None:
+        return obj
+    if id(obj) in seen or depth > 40:
+        return ("ref", id(obj))
+    seen[id(obj)] = True
+    if isinstance(obj, list):
+        return ("list", id(obj), getattr(obj, "owner", None) is not None and id(getattr(obj, "owner")),
+                [deep_snapshot(x, seen, depth + 1) for x in obj])
+    if isinstance(obj, (tuple, set, frozenset)):
+        return ("tuple", [deep_snapshot(x, seen, depth + 1) for x in obj])
+    if isinstance(obj, dict):
+        return ("dict", id(obj), [(k, deep_snapshot(v, seen, depth + 1)) for k, v in obj.items()])
+    if dataclasses.is_dataclass(obj):
+        return (type(obj).__name__, id(obj), [(f.name, deep_snapshot(getattr(obj, f.name), seen, depth + 1))
+                                              for f in dataclasses.fields(obj)])
+    if hasattr(obj, "expressions") and hasattr(obj, "trailing"):
+        return ("Source", id(obj), deep_snapshot(obj.expressions, seen, depth + 1), deep_snapshot(obj.trailing, seen, depth + 1))
+    return ("obj", id(obj))
+
+
 def resolve_target(target: str):
     rel, qual = target.split("::")
     modname = rel[:-3].replace("/", ".")
@@ -73,7 +189,18 @@ def normalize(v):
 
 
 def spec_env():
-    env = {"implies": implies, "iff": lambda a, b: bool(a) == bool(b), "old": lambda x: x}
+    env = {"implies": implies, "iff": lambda a, b: bool(a) == bool(b), "old": lambda x: x, "_snap": _snap}
+    try:
+        import nix_manipulator.expressions as _ex
+        from nix_manipulator.expressions.set import _AttrpathEntry
+        from nix_manipulator.expressions.scope import Scope, ScopeState
+        from nix_manipulator.expressions.expression import NixExpression
+
+        for k in getattr(_ex, "__all__", []):
+            env[k] = getattr(_ex, k)
+        env.update(_AttrpathEntry=_AttrpathEntry, Scope=Scope, ScopeState=ScopeState, NixExpression=NixExpression)
+    except Exception:
+        pass
     for name, sp in SPECS.items():
         env[name] = sp.py
         for k, o in sp.globals.items():
@@ -145,6 +272,31 @@ def check_native(c: Contract, inputs: dict, fn=None) -> NativeOutcome:
             kwargs[name] = inputs[name]
         else:
             args.append(inputs[name])
+    # pre-state values of old(...)
+    prepared = {}
+    try:
+        all_clauses = list(c.ensures) + [cl for cls in c.exsures.values() for cl in cls]
+        for cl in all_clauses:
+            pre, code = prepare(cl)
+            for name, pcode in pre:
+                try:
+                    env[f"{name}@{id(code)}"] = eval(pcode, env)
+                except Exception as e:  # undefined in the pre-state: only an error if a clause really uses it
+                    env[f"{name}@{id(code)}"] = _Undefined(e)
+            prepared[cl] = (pre, code)
+        snap0 = deep_snapshot(inputs) if any("heap_unchanged" in cl for cl in all_clauses) else None
+    except Exception as e:
+        out.pre_ok = False
+        return out
+
+    def post_eval(cl):
+        pre, code = prepared[cl]
+        e2 = dict(env)
+        for name, _p in pre:
+            e2[name] = env[f"{name}@{id(code)}"]
+        e2["heap_unchanged"] = lambda: deep_snapshot(inputs) == snap0
+        return eval(code, e2)
+
     try:
         res = fn(*args, **kwargs)
         out.kind = "return"
@@ -157,7 +309,7 @@ def check_native(c: Contract, inputs: dict, fn=None) -> NativeOutcome:
         if out.kind == "return":
             env["result"] = out.result
             for cl in c.ensures:
-                if not ceval(cl, env):
+                if not post_eval(cl):
                     out.failed.append(cl)
         else:
             handled = None
@@ -169,7 +321,7 @@ def check_native(c: Contract, inputs: dict, fn=None) -> NativeOutcome:
                 out.failed.append(f"no-unexpected-raise: {out.exc_repr}")
             else:
                 for cl in c.exsures[handled]:
-                    if not ceval(cl, env):
+                    if not post_eval(cl):
                         out.failed.append(f"post-exc({handled}): {cl}")
     except Exception as e:
         out.error = f"{type(e).__name__}: {e}"
